@@ -96,6 +96,42 @@ Section C04.
     effective_pgf_u c1 va m x1 (rt_cloud c1 m x1 q qc qi) q k - effective_pgf_u c2 va m x2 (rt_cloud c2 m x2 q qc qi) q k
     = cR c * (T1 k - T2 k) * (qc k + qi k) * n_gx x * n_sec2 x.
   Proof. intros HR. exact (effective_pgf_cloud_defect c HR va m T1 T2 T q qc qi x k). Qed.
+
+  (** *** the np.unique branch *)
+  (** when the code skips the branch, the skipped term is exactly zero *)
+  Theorem C04_unique_branch_zero (w : nat -> F) n :
+    (n < cK c)%nat -> tref_nonuniform c = false -> vertical_tendency c w (cTref c) n = 0.
+  Proof. exact (unique_branch_zero feqb_sound c w n). Qed.
+  (** hence the vertical temperature tendency is the same function whichever way the test goes *)
+  Theorem C04_unique_branch_free (va : bool) (x : NCol) n :
+    (n < cK c)%nat ->
+    temp_vertical_tendency c va x n
+    = (if va then vertical_tendency c (sigma_dot_full c x) (n_temp x) n else 0)
+      + vertical_tendency c (sigma_dot_explicit c x) (cTref c) n.
+  Proof. exact (temp_vertical_tendency_branch_free feqb_sound c va x n). Qed.
+  (** and the test is exactly "some entry differs from the first" *)
+  Theorem C04_unique_test_iff :
+    (forall x : F, feqb x x = true) ->
+    (tref_nonuniform c = true <-> exists k, (k < cK c)%nat /\ cTref c k <> cTref c 0%nat).
+  Proof. intros Hr. exact (tref_nonuniform_iff feqb_sound c Hr). Qed.
+
+  (** *** include_vertical_advection = False (outside the property): the sum keeps the advection of
+      the reference profile by the full sigma_dot; invariant only for level-uniform profiles *)
+  Theorem C04_no_vertical_advection_closed_form (Tref T : nat -> F) (x : NCol) n :
+    (n < cK c)%nat ->
+    let ci := with_tref c Tref in let xi := with_temp x (fun k => T k - Tref k) in
+    temp_vertical_tendency ci false xi n + temp_adiabatic ci xi n + temp_implicit_col ci (n_div x) n
+    = vertical_tendency c (sigma_dot_full c x) Tref n
+      + ckappa c * (T n * (u_dot_grad x n - g_part c (g_full_adiabatic x) n)).
+  Proof. intros Hn. exact (tref_split_closed_no_va two_nz feqb_sound c th2_nz Tref T x n Hn). Qed.
+  Theorem C04_no_vertical_advection_uniform_invariance (T1 T2 T : nat -> F) (x : NCol) n :
+    (n < cK c)%nat ->
+    (forall k, (k < cK c)%nat -> T1 k = T1 0%nat) -> (forall k, (k < cK c)%nat -> T2 k = T2 0%nat) ->
+    let c1 := with_tref c T1 in let c2 := with_tref c T2 in
+    let x1 := with_temp x (fun k => T k - T1 k) in let x2 := with_temp x (fun k => T k - T2 k) in
+    temp_vertical_tendency c1 false x1 n + temp_adiabatic c1 x1 n + temp_implicit_col c1 (n_div x) n
+    = temp_vertical_tendency c2 false x2 n + temp_adiabatic c2 x2 n + temp_implicit_col c2 (n_div x) n.
+  Proof. intros Hn U1 U2. exact (tref_split_invariance_no_va_uniform two_nz feqb_sound c th2_nz T1 T2 T x n Hn U1 U2). Qed.
 End C04.
 
 (** *** the modal layer: explicit_terms + implicit_terms over abstract linear
@@ -182,13 +218,52 @@ Section C04_modal.
     rewrite !(vorticity_modal_closed W P toM curlc clip toM_lin curlc_lin clip_lin c X T H_curl_grad _ r w).
     reflexivity.
   Qed.
-  (* Not proved at the modal layer (partial): the moist classes' divergence/vorticity
-     tendencies, i.e. the same statements with rt_moist and the humidity corrections
-     humidity_div_modal / humidity_curl_modal under the additional Leibniz hypotheses
-       clip(div(to_modal(q sec2 grad lnps)) - to_modal(q lap lnps + sec2 grad q . grad lnps)) = 0,
-       clip(curl(to_modal(q sec2 grad lnps)) - to_modal(sec2 (grad q x grad lnps))) = 0.
-     Their nodal core is C04_effective_pgf_invariant; the hypotheses are table obligations
-     H_leibniz / H_leibniz_curl of the plugin and the moist oracles exercise the full statement. *)
+  (** *** moist classes (MoistPrimitiveEquations; the cloud class with zero condensate) *)
+  Variable m : @Moist F.
+  Hypothesis R_nz : cR c <> 0.
+  (** nodal specific humidity, its nodal cos_lat_grad, nodal laplacian(lnps) *)
+  Variable q gqx gqy : P -> nat -> F.
+  Variable lapn : P -> F.
+  (** Leibniz rule on the nodal side (alias-free product q * grad lnps):
+      div(q sec2 grad lnps) = q lap(lnps) + sec2 grad q . grad lnps,
+      curl(q sec2 grad lnps) = - sec2 (grad lnps x grad q) *)
+  Hypothesis H_leibniz : forall r w,
+      clip (fun w' => divc (toM (qgx P X q r)) (toM (qgy P X q r)) w' - toM (leib_div P X q gqx gqy lapn r) w') w = 0.
+  Hypothesis H_leibniz_curl : forall r w,
+      clip (fun w' => curlc (toM (qgx P X q r)) (toM (qgy P X q r)) w' + toM (leib_curl P X gqx gqy r) w') w = 0.
+
+  (** modal divergence tendency with virtual temperature and divergence_tendency_due_to_humidity *)
+  Theorem C04_divergence_invariance_moist (T1 T2 : nat -> F) r w :
+    div_tendency_explicit W P toM divc lap clip (with_tref c T1) grav (Xs P X T T1)
+        (fun p => rt_moist (with_tref c T1) m (Xs P X T T1 p) (q p)) orog
+        (fun w' => humidity_div_modal W P toM lap (with_tref c T1) m (Xs P X T T1) q gqx gqy lapn r w') r w
+    + div_tendency_implicit W lap (with_tref c T1) (Tms W Tm onem T1) lnps r w
+    = div_tendency_explicit W P toM divc lap clip (with_tref c T2) grav (Xs P X T T2)
+          (fun p => rt_moist (with_tref c T2) m (Xs P X T T2 p) (q p)) orog
+          (fun w' => humidity_div_modal W P toM lap (with_tref c T2) m (Xs P X T T2) q gqx gqy lapn r w') r w
+      + div_tendency_implicit W lap (with_tref c T2) (Tms W Tm onem T2) lnps r w.
+  Proof.
+    rewrite !(divergence_modal_closed_moist W P toM divc lap clip toM_lin divc_lin lap_lin clip_lin c R_nz grav m
+                X T Tm lnps onem orog q gqx gqy lapn H_div_grad lap_const H_leibniz _ r w).
+    reflexivity.
+  Qed.
+
+  (** modal vorticity tendency with virtual temperature and vorticity_tendency_due_to_humidity *)
+  Theorem C04_vorticity_invariance_moist (T1 T2 : nat -> F) r w :
+    vort_tendency_explicit W P toM curlc clip (with_tref c T1) (Xs P X T T1)
+        (fun p => rt_moist (with_tref c T1) m (Xs P X T T1 p) (q p))
+        (fun w' => humidity_curl_modal W P toM (with_tref c T1) m (Xs P X T T1) gqx gqy r w') r w
+    = vort_tendency_explicit W P toM curlc clip (with_tref c T2) (Xs P X T T2)
+          (fun p => rt_moist (with_tref c T2) m (Xs P X T T2 p) (q p))
+          (fun w' => humidity_curl_modal W P toM (with_tref c T2) m (Xs P X T T2) gqx gqy r w') r w.
+  Proof.
+    rewrite !(vorticity_modal_closed_moist W P toM curlc clip toM_lin curlc_lin clip_lin c R_nz m X T q gqx gqy
+                H_curl_grad H_leibniz_curl _ r w).
+    reflexivity.
+  Qed.
+  (* The moist temperature equation at the modal layer is C04_temperature_modal_invariance with
+     temp_tendency_explicit_moist; its nodal core is C04_tref_split_invariance_moist (the modal wrapper
+     is stated for the dry adiabatic term only). *)
 End C04_modal.
 
 (** *** a concrete instance over Qc: uneven 3-layer levels, non-uniform profiles *)
@@ -282,6 +357,31 @@ Proof.
   - intro H. vm_compute in H. discriminate H.
 Qed.
 
+(** the Leibniz hypotheses of the moist theorems on the same instance (grad q = 0, lapn = lap lnps) *)
+Example C04_modal_moist_hyps_satisfiable :
+  let X := fun _ : unit => ex_colm in
+  let q := fun (_ : unit) => ex_q in
+  let gq := fun (_ : unit) (_ : nat) => Q2Qc 0 in
+  let lapn := fun _ : unit => Q2Qc (2#15) in
+  let curlc := tC (n_gx ex_colm * n_sec2 ex_colm) (n_gy ex_colm * n_sec2 ex_colm) in
+  cR ex_cfg <> 0 /\ lapn tt = tL (Q2Qc (-(2#1))) (fun _ => Q2Qc (-(1#15))) tt /\
+  (forall r w, (r < 3)%nat ->
+     tI (fun w' => tD (tI (qgx unit X q r)) (tI (qgy unit X q r)) w' - tI (leib_div unit X q gq gq lapn r) w') w = 0) /\
+  (forall r w, (r < 3)%nat ->
+     tI (fun w' => curlc (tI (qgx unit X q r)) (tI (qgy unit X q r)) w' + tI (leib_curl unit X gq gq r) w') w = 0).
+Proof.
+  cbv zeta. split; [intro H; vm_compute in H; discriminate H|]. split; [apply Qc_is_canon; vm_compute; reflexivity|].
+  split; intros r w Hr; destruct r as [|[|[|r]]]; try lia; apply Qc_is_canon; vm_compute; reflexivity.
+Qed.
+
+(** include_vertical_advection = False refutes the invariance for non-uniform profiles (witness over Qc) *)
+Theorem C04_no_vertical_advection_refuted :
+  let c1 := with_tref ex_cfg ex_T1 in let c2 := with_tref ex_cfg ex_T2 in
+  let x1 := with_temp ex_col (fun k => ex_T k - ex_T1 k) in let x2 := with_temp ex_col (fun k => ex_T k - ex_T2 k) in
+  temp_vertical_tendency c1 false x1 1 + temp_adiabatic c1 x1 1 + temp_implicit_col c1 (n_div ex_col) 1
+  <> temp_vertical_tendency c2 false x2 1 + temp_adiabatic c2 x2 1 + temp_implicit_col c2 (n_div ex_col) 1.
+Proof. cbv zeta. intro H. vm_compute in H. discriminate H. Qed.
+
 (** The cloud-moist class refutes the invariance: with non-zero condensate the
     effective pressure-gradient vector depends on the split (witness over Qc). *)
 Theorem C04_tref_split_cloud_refuted :
@@ -329,7 +429,16 @@ Print Assumptions C04_column_commutes.
 Print Assumptions C04_temperature_modal_invariance.
 Print Assumptions C04_divergence_invariance.
 Print Assumptions C04_vorticity_invariance.
+Print Assumptions C04_divergence_invariance_moist.
+Print Assumptions C04_vorticity_invariance_moist.
+Print Assumptions C04_unique_branch_zero.
+Print Assumptions C04_unique_branch_free.
+Print Assumptions C04_unique_test_iff.
+Print Assumptions C04_no_vertical_advection_closed_form.
+Print Assumptions C04_no_vertical_advection_uniform_invariance.
 Print Assumptions C04_hyps_satisfiable.
 Print Assumptions C04_modal_hyps_satisfiable.
+Print Assumptions C04_modal_moist_hyps_satisfiable.
+Print Assumptions C04_no_vertical_advection_refuted.
 Print Assumptions C04_tref_split_cloud_refuted.
 Print Assumptions C04_tref_split_invariance_R.
